@@ -466,7 +466,12 @@ func main() {
 				called = false
 			}
 		}
-		if catalogue && (c.defs == nil || !called) {
+		if catalogue && errorInImport(c.src, perr) {
+			// goose refused an import declaration (a renamed import): every declaration that uses the
+			// package depends on it; the whole package counts as rejected
+			rejected++
+			fmt.Fprintf(w, "V %s rejected-import\n", c.name)
+		} else if catalogue && (c.defs == nil || !called) {
 			// rejected: the called function is not in the output; there must be an error for it
 			rejected++
 			if len(perr) == 0 && c.coqErr != "no output file" {
@@ -690,6 +695,35 @@ func externalReference(coqErr, src string) bool {
 		return false
 	}
 	return strings.Contains(src, "\""+m[1]+"\"") || strings.Contains(src, "/"+m[1]+"\"")
+}
+
+var srcPosRe = regexp.MustCompile(`/p\.go:(\d+):\d+`)
+
+// errorInImport: one of the reported positions lies on a line of the import declaration(s) of p.go
+func errorInImport(src string, perr []string) bool {
+	lines := strings.Split(src, "\n")
+	inBlock := map[int]bool{}
+	block := false
+	for i, l := range lines {
+		t := strings.TrimSpace(l)
+		if strings.HasPrefix(t, "import (") {
+			block = true
+		} else if block && t == ")" {
+			block = false
+		} else if block || strings.HasPrefix(t, "import ") {
+			inBlock[i+1] = true
+		}
+	}
+	for _, e := range perr {
+		if m := srcPosRe.FindStringSubmatch(e); m != nil {
+			var n int
+			fmt.Sscanf(m[1], "%d", &n)
+			if inBlock[n] {
+				return true
+			}
+		}
+	}
+	return false
 }
 
 // lexicalChecks: the definitions Coq sees for the commented package equal, as
